@@ -1097,6 +1097,9 @@ func c05Run(c *Ctx) {
 	// a client that stops reading for seconds in the middle of the stream: some writer sits in its network write all
 	// that time and the others wait for it - however long that takes, they wait
 	stallTr := []string{"plain", "starttls"}
+	if c.Quick() && os.Getenv("GOMAXPROCS") != "16" {
+		stallTr = nil // quick: in one of the phases only
+	}
 	if !c.Quick() {
 		stallTr = []string{"plain", "starttls", "tls", "plain", "plain"}
 	}
